@@ -21,4 +21,4 @@ cp "$DEMO" tests/ 2>/dev/null
 echo "--- demo WITH change"; cargo test --offline --test $NAME 2>&1 | grep -E "^test result|error\[" | head -3
 git checkout -q -- . ; rm -f tests/$NAME.rs
 echo "--- my checks against the change"
-/verif/tools/mutant.sh $OUT/patch.diff "$@"
+/verif/tools/mutant_scratch.sh $OUT/patch.diff "$@"
